@@ -818,6 +818,11 @@ def main():
     for r in H.pmap(work_2d, c2, run.args.jobs):
         sub += r.get('sub_rounding', 0)
         run.merge(r)
+    if run.tier == 'quick':
+        sk = [(1, False, 2, 'all', 'graded'), (2, False, 2, 'all', 'graded'), (2, True, 3, 'all', 'graded'), (3, False, 4, 2, 'irregular'), (3, True, 4, 1, 'irregular')]
+        for r in H.pmap(work_symknots, sk, run.args.jobs):
+            run.merge(r)
+        run.sections['symbolic_break_point_configs'] = len(sk)
     if run.tier == 'thorough':
         sk = []
         for per in (False, True):
